@@ -259,6 +259,9 @@ impl<H: Hasher> BatchMerkleProof<H> {
         if indexes.len() != self.leaves.len() {
             return Err(MerkleTreeError::InvalidProof);
         }
+        if self.depth as u32 >= usize::BITS {
+            return Err(MerkleTreeError::InvalidProof);
+        }
 
         let mut partial_tree_map = BTreeMap::new();
 
